@@ -4,11 +4,10 @@
    operation is the corresponding matrix operation.  Phase lists of any length denote the
    ordered product R(phi_0) w R(phi_1) ... w R(phi_n), which has determinant 1. *)
 From Coq Require Import ZArith List Ring Lia Bool.
-From PyqspV Require Import Base.Ops Model.LPolyM Model.LAlgM Theory.RingK Theory.LPolyT.
+From PyqspV Require Import Base.Ops Model.LPolyM Model.LAlgM Model.ResponseM Theory.RingK Theory.LPolyT.
+From PyqspV Require Export Model.ResponseM.
 Import ListNotations.
 
-Record mat2 (K : Type) := M2 { m00 : K; m01 : K; m10 : K; m11 : K }.
-Arguments M2 {K}. Arguments m00 {K}. Arguments m01 {K}. Arguments m10 {K}. Arguments m11 {K}.
 
 Section LAlgT.
   Variable K : CRing.
